@@ -117,7 +117,7 @@ class Partner:
 
     case keys: ops, noise, lbad_delay, qready, sready, strobes, and optionally down (C38):
       down = dict(at=cycle, mode=0 disable | 1 warm reset | 2 hot reset, rst_off, rst_len, length, cont, traffic,
-                  sready_down, post=[hdr ops])
+                  sready_down, post=[hdr ops], dstrobes=[[anchor, off, kind], ...] (optional, see step()))
     """
 
     def __init__(self, case, down_at=None, drain=60):
@@ -155,6 +155,8 @@ class Partner:
         self.down_words = deque()
         self.post_ops = deque()
         self.up_at = None
+        self.down_strobes = {}
+        self.down_override = {}
         self.post_cmds = 0                # link commands seen since re-entry (C38: strobes only after the advertisement)
         # logs
         self.log = []                     # per cycle dict of applied inputs
@@ -289,6 +291,20 @@ class Partner:
                     elif kind == "idle":
                         self.down_words.append((1, 0, 0))
                 self.up_at = t + d["length"]
+                # strobes decoded from the received stream while the link is down (the transmitter's link-command
+                # detector is not gated by the link state): [anchor, off, kind] = cycle down_at+off (anchor 0) or
+                # up_at-1-off (anchor 1); kind 1 LBAD -> retry_required, 2 LGO_U -> reject_power_state,
+                # 3 LRTY -> retry_received.  The command's two words are put on the wire in the two cycles before
+                # the strobe where those cycles belong to the partner's down-time traffic.
+                self.down_strobes = {}
+                self.down_override = {}
+                for anchor, off, kind in d.get("dstrobes", ()):
+                    s = t + off if anchor == 0 else self.up_at - 1 - off
+                    if t <= s < self.up_at:
+                        self.down_strobes.setdefault(s, set()).add({1: "retry_req", 2: "rej", 3: "retry_rx"}[kind])
+                        cmd = {1: (R.LBAD, 0), 2: (R.LGO_U, 1), 3: (R.LRTY, 0)}[kind]
+                        for k, w in enumerate(R.lc_words(*cmd)):
+                            self.down_override.setdefault(s - 2 + k, (1,) + w)
             if self.phase == "down":
                 rel = t - self.down_at
                 if d["mode"] == 1:           # warm reset: usb_reset from the cycle before enable falls
@@ -332,6 +348,7 @@ class Partner:
                     self.down_words.append(word)
                 else:
                     word = (1, 0, 0)
+                word = self.down_override.get(t, word)
         else:
             if not self.wq and self.idle_left == 0 and not self.phase_done:
                 self._refill(t)
@@ -359,6 +376,9 @@ class Partner:
                 self.strobe_wait = self.strobes[0][0] if self.strobes else None
             else:
                 self.strobe_wait -= 1
+        if self.phase == "down":
+            for name in self.down_strobes.get(t, ()):
+                upd[name] = 1
         # ---- readies
         draining = self.phase_done and not self.wq and (self.down_at is None or self.phase == "post")
         if draining:
